@@ -1,9 +1,70 @@
 (* C17 — BUILD numbers grow numerically and lexically forever. *)
-From Coq Require Import List NArith.
-From BV Require Import Lib.PyStr Lib.Decimal Model.Lexid.
+From Coq Require Import List Bool NArith Arith.
+From BV Require Import Lib.PyStr Lib.Decimal Model.Lexid Proofs.DecimalFacts Proofs.LexidFacts.
 Import ListNotations.
 
-Example next_id_examples :
-  next_id [48;57;57;57]%N = Some [49;49;48;48;48]%N /\ next_id [57;57]%N = None.
-Proof. split; vm_compute; reflexivity. Qed.
-Print Assumptions next_id_examples.
+Theorem C17_next_id_none_iff : forall s : list N,
+  all_digits s = true -> (next_id s = None <-> all_nines s = true).
+Proof. exact next_id_none_iff. Qed.
+Print Assumptions C17_next_id_none_iff.
+
+Theorem C17_next_id_spec : forall s t : list N,
+  all_digits s = true -> next_id s = Some t ->
+  (undec s < undec t)%N /\ (length s <= length t)%nat /\ lt_str s t = true /\
+  all_digits t = true /\ t <> [].
+Proof. exact next_id_spec. Qed.
+Print Assumptions C17_next_id_spec.
+
+Theorem C17_bump_bid_spec : forall b t : list N,
+  all_digits b = true -> b <> [] -> bump_bid b = Some t ->
+  (undec b < undec t)%N /\ all_digits t = true /\ (4 <= length t)%nat /\ (1000 <= undec t)%N
+  /\ ((4 <= length b)%nat -> lt_str b t = true)
+  /\ ((1000 <= undec b)%N -> (length b <= length t)%nat).
+Proof. exact bump_bid_spec. Qed.
+Print Assumptions C17_bump_bid_spec.
+
+Theorem C17_bump_bid_none_iff : forall b : list N,
+  all_digits b = true -> b <> [] ->
+  (bump_bid b = None <->
+   all_nines (if (undec b <? 1000)%N then dec (undec b + 1000) else b) = true).
+Proof. exact bump_bid_none_iff. Qed.
+Print Assumptions C17_bump_bid_none_iff.
+
+(* every consecutive pair of a bump chain: numeric increase always;
+   string increase from the first generated value on *)
+Theorem C17_bump_chain_spec : forall (n : nat) (b : list N) (l : list (list N)),
+  all_digits b = true -> b <> [] -> bump_chain n b = Some l ->
+  length l = n /\
+  (forall i x y, nth_error (b :: l) i = Some x -> nth_error l i = Some y ->
+      (undec x < undec y)%N /\
+      ((1 <= i)%nat \/ (4 <= length b)%nat -> lt_str x y = true)).
+Proof. exact bump_chain_spec. Qed.
+Print Assumptions C17_bump_chain_spec.
+
+Theorem C17_undec_dec : forall n : N, undec (dec n) = n.
+Proof. exact undec_dec. Qed.
+Print Assumptions C17_undec_dec.
+
+Theorem C17_dec_canonical : forall s : list N,
+  all_digits s = true -> s <> [] -> (hd 0%N s <> 48%N \/ s = [48%N]) ->
+  dec (undec s) = s.
+Proof. exact dec_canonical. Qed.
+Print Assumptions C17_dec_canonical.
+
+(* hypotheses are satisfiable on non-trivial ids:
+   next_id "0999" = "11000", next_id "99" overflows, bump "0001" = "1002" *)
+Example C17_next_id_examples :
+  all_digits [48;57;57;57]%N = true /\
+  next_id [48;57;57;57]%N = Some [49;49;48;48;48]%N /\
+  next_id [57;57]%N = None /\
+  bump_bid [48;48;48;49]%N = Some [49;48;48;50]%N.
+Proof. vm_compute; repeat split; reflexivity. Qed.
+Print Assumptions C17_next_id_examples.
+
+(* "0998" -> "1999" -> "22000" -> "22001" *)
+Example C17_bump_chain_example :
+  all_digits [48;57;57;56]%N = true /\
+  bump_chain 3 [48;57;57;56]%N =
+    Some [[49;57;57;57]; [50;50;48;48;48]; [50;50;48;48;49]]%N.
+Proof. vm_compute; split; reflexivity. Qed.
+Print Assumptions C17_bump_chain_example.
